@@ -412,6 +412,11 @@ structure St where
 def isSpecialComment (text : List Char) : Bool :=
   6 < text.length && ((s "[if ").isPrefixOf text || (s "[endif]").isSuffixOf text || (s "[endif]--").isSuffixOf text)
 
+/-- `bytes.Contains(l, p)` -/
+def bytesContain (p : List Char) : List Char → Bool
+  | [] => p.isEmpty
+  | c :: r => p.isPrefixOf (c :: r) || bytesContain p r
+
 def commentOut (o : Opts) (ext : Ext) (data text : List Char) : Except String (List Char) :=
   if o.keepComments then .ok data
   else if o.keepSpecialComments then
@@ -421,7 +426,9 @@ def commentOut (o : Opts) (ext : Ext) (data text : List Char) : Except String (L
         let endp := data.length - 12
         if begin < endp then do
           let inner ← callExt ext "html" ((data.take endp).drop begin)
-          .ok (data.take begin ++ inner ++ data.drop endp)
+          -- the minified content would end the comment (`--&gt;` in an attribute value): the original stays
+          if bytesContain (s "-->") inner || bytesContain (s "--!>") inner then .ok data
+          else .ok (data.take begin ++ inner ++ data.drop endp)
         else .ok data
       else .ok data
     else if 1 < text.length && text.head? = some '#' then .ok data
@@ -438,6 +445,56 @@ def rawMime (rawTag rawMediatype : List Char) : List Char :=
   else if hashIs rawTag "script" then s "application/javascript"
   else s "text/css"
 
+/-! ### `rawTextEndsAtEnd`: the lexer's scan of a raw text element (`parse/html` `shiftRawText`, no template delimiters)
+
+`rawEnd name mode skip pos l`: the offset at which the raw text of element `name` ends when the lexer reads `l`
+(`pos` = offset of the head of `l`; the whole length at the end of the input).  `mode` 0: plain; 1: script, after
+`<!--`; 2: script, after `<!--` … `<script`.  The lexer jumps over `</` + letters and `<` + letters after looking at
+them; none of those bytes is `<` or `-`, so visiting them one at a time is the same.  Only the jumps over `!--` and
+`->` matter (`<!-->` does not leave the escaped state): `skip`. -/
+
+def rawLetter (c : Char) : Bool := ('a' ≤ c && c ≤ 'z') || ('A' ≤ c && c ≤ 'Z')
+
+def rawLower (c : Char) : Char := if 'A' ≤ c && c ≤ 'Z' then Char.ofNat (c.toNat + 32) else c
+
+/-- the letters at the head of `l`, lower-cased, are `name`: `ToHash(ToLower(letters)) == h` -/
+def wordIs (name : List Char) (l : List Char) : Bool := (l.takeWhile rawLetter).map rawLower == name
+
+def rawEnd (name : List Char) : Nat → Nat → Nat → List Char → Nat
+  | _, _, pos, [] => pos
+  | mode, skip + 1, pos, _ :: r => rawEnd name mode skip (pos + 1) r
+  | 0, 0, pos, c :: r =>
+    if c = '<' then
+      if headIs (· = '/') r then
+        if wordIs name (r.drop 1) then pos else rawEnd name 0 0 (pos + 1) r
+      else if name = s "script" && (s "!--").isPrefixOf r then rawEnd name 1 3 (pos + 1) r
+      else rawEnd name 0 0 (pos + 1) r
+    else rawEnd name 0 0 (pos + 1) r
+  | mode + 1, 0, pos, c :: r =>
+    if c = '-' && (s "->").isPrefixOf r then rawEnd name 0 2 (pos + 1) r
+    else if c = '<' then
+      if headIs (· = '/') r then
+        if wordIs (s "script") (r.drop 1) then
+          if mode = 0 then pos else rawEnd name 1 0 (pos + 1) r
+        else rawEnd name (mode + 1) 0 (pos + 1) r
+      else if wordIs (s "script") r then rawEnd name 2 0 (pos + 1) r
+      else rawEnd name (mode + 1) 0 (pos + 1) r
+    else rawEnd name (mode + 1) 0 (pos + 1) r
+
+/-- `rawTextEndsAtEnd(h, b)`: `<name>` + b + `</name>` is read back by the lexer as start tag, one text token that
+    is exactly `b` (none when `b` is empty), end tag -/
+def rawTextEndsAtEnd (name b : List Char) : Bool :=
+  rawEnd name 0 0 0 (b ++ '<' :: '/' :: name ++ ['>']) == b.length
+
+/-- content of a script/style/iframe element: the result of the sub-minifier is used only when it is read back as
+    the content of the element; without a sub-minifier (`ErrNotExist`) and otherwise the original bytes stay -/
+def rawTextOut (sub : Sub) (rawTag rawMediatype data : List Char) : List Char :=
+  match sub with
+  | none => data
+  | some f =>
+    let r := f (rawMime rawTag rawMediatype) false data
+    if rawTextEndsAtEnd rawTag r then r else data
+
 def updOmitSpace (o : Opts) (name : List Char) (cur : Bool) : Bool :=
   if o.keepWhitespace || isObject name then false
   else if isBlock name then true
@@ -445,7 +502,8 @@ def updOmitSpace (o : Opts) (name : List Char) (cur : Bool) : Bool :=
 
 /-- whitespace collapsing and reference replacement of an ordinary text token -/
 def textCollapsed (data : List Char) : List Char :=
-  if hasReferenceGlue data then collapseWs false data
+  -- `<&#98;>` is the text `<b>`: decoding the reference would make it a tag
+  if hasReferenceGlue data || bytesContain ['<', '&'] data then collapseWs false data
   else replaceWsEntities C03Tables.entitiesMap C03Tables.textRevEntitiesMap data
 
 /-- the ordinary text branch: collapse whitespace and replace references, trim left if the pending-space flag is
@@ -518,7 +576,7 @@ def step (o : Opts) (ext : Ext) (sub : Sub) (st : St) (t : HTok) (rest : List HT
     if st.dropText && !tmpl then .ok (st0, [])
     else if !st.rawTag.isEmpty && !tmpl then
       if hashIs st.rawTag "style" || hashIs st.rawTag "script" || hashIs st.rawTag "iframe" then
-        .ok (st0, callSub sub (rawMime st.rawTag st.rawMediatype) false data)
+        .ok (st0, rawTextOut sub st.rawTag st.rawMediatype data)
       else .ok (st0, data)
     else if st.inPre then
       -- a newline directly after `<pre>` would be dropped by the parser once the comment in between is gone
